@@ -21,21 +21,27 @@ res = {"repo_head": subprocess.check_output(["git", "-C", "/repo", "rev-parse", 
 try:
     demo_dir = meta["demo_pkg_dir"]
     os.makedirs(os.path.join(wt, demo_dir), exist_ok=True)
+    fdir = lambda f: meta.get("demo_file_dirs", {}).get(f, demo_dir)  # a demonstration may span packages
     for f in meta["demo_files"]:
-        shutil.copy(os.path.join(seed, f), os.path.join(wt, demo_dir, f))
-    r = sh(meta["demo_cmd"])
+        shutil.copy(os.path.join(seed, f), os.path.join(wt, fdir(f), f))
+    demo_cmd = meta["demo_cmd"]
+    if meta.get("demo_overlay"):  # {file in the tree: replacement kept in the seed directory} (e.g. a Docker-less TestMain)
+        ov = {"Replace": {os.path.join(wt, k): os.path.join(seed, v) for k, v in meta["demo_overlay"].items()}}
+        json.dump(ov, open(wt + "/.seed_overlay.json", "w"))
+        demo_cmd = demo_cmd.replace("go test ", "go test -overlay=%s/.seed_overlay.json " % wt, 1)
+    r = sh(demo_cmd)
     res["demo_passes_without_patch"] = r.returncode == 0
     res["demo_without_tail"] = r.stdout[-600:]
     r = sh("git apply %s" % os.path.join(seed, "patch.diff"))
     res["patch_applies"] = r.returncode == 0
     r = sh("go build ./... && go vet ./%s" % demo_dir if False else "go build ./...")
     res["builds"] = r.returncode == 0
-    r = sh(meta["demo_cmd"])
+    r = sh(demo_cmd)
     res["demo_fails_with_patch"] = r.returncode != 0
     res["demo_with_tail"] = r.stdout[-1200:]
     # baseline with the patch, demo removed
     for f in meta["demo_files"]:
-        os.remove(os.path.join(wt, demo_dir, f))
+        os.remove(os.path.join(wt, fdir(f), f))
     r = sh("go test -json -vet=off -count=1 -timeout 25m ./... 2>&1")
     status = {}
     for line in r.stdout.splitlines():
